@@ -325,7 +325,6 @@ func t2Translate(f *ast.File) string {
 	return out.String()
 }
 
-
 // t2 writes Generated/T2.lean: walk.go translated into the walker combinators of Model/Walk.
 func t2() {
 	var b strings.Builder
